@@ -187,4 +187,22 @@ CONTRACTS = {
         trace=[{"name": "C19 no constructed graph escapes validation: duplicate-name check, edge normalisation (when edges are given) and graph building precede _validate, which is the last step of every accepting path",
                 "check": ctor_validates_last}],
     ),
+    VF + "_validate_types": dict(
+        props=["C19"],
+        params={"nodes": NODES, "nx_graph": ANY},
+        returns=NONE_T,
+        imports={"is_type_compatible": "hypergraph._typing"},
+        # every edge of the built graph joins two of its nodes (established by _build_graph)
+        requires=["all(e[0] in nodes and e[1] in nodes for e in nx_graph.edges(data=True))"],
+        # strict mode: rejected iff SOME value on SOME edge lacks an annotation on either side or has incompatible types -
+        # whichever edge, whichever consumer of a value that fans out
+        raises={"GraphConfigError": "any((bool(e[2].get('value_names')) and any(nodes[e[0]].get_output_type(v) is None or nodes[e[1]].get_input_type(v) is None or not is_type_compatible(nodes[e[0]].get_output_type(v), nodes[e[1]].get_input_type(v)) for v in e[2].get('value_names'))) for e in nx_graph.edges(data=True))"},
+        modifies=[],
+        loops=[
+            {"invariant": ["not any((bool(e[2].get('value_names')) and any(nodes[e[0]].get_output_type(v) is None or nodes[e[1]].get_input_type(v) is None or not is_type_compatible(nodes[e[0]].get_output_type(v), nodes[e[1]].get_input_type(v)) for v in e[2].get('value_names'))) for e in _seq[:_i])"]},
+            {"invariant": ["not any((bool(e[2].get('value_names')) and any(nodes[e[0]].get_output_type(v) is None or nodes[e[1]].get_input_type(v) is None or not is_type_compatible(nodes[e[0]].get_output_type(v), nodes[e[1]].get_input_type(v)) for v in e[2].get('value_names'))) for e in _seq0[:_i0])", "bool(value_names)", "value_names is edge_data.get('value_names')",
+                           "source_node is nodes[source_name]", "target_node is nodes[target_name]",
+                           "not any(source_node.get_output_type(v) is None or target_node.get_input_type(v) is None or not is_type_compatible(source_node.get_output_type(v), target_node.get_input_type(v)) for v in _seq[:_i])"]},
+        ],
+    ),
 }
